@@ -2,6 +2,7 @@ import BreezyVerif.Model.C35
 import BreezyVerif.Lemmas.C35
 import BreezyVerif.Lemmas.C35Hist
 import BreezyVerif.Lemmas.C35Git
+import BreezyVerif.Lemmas.C35Y
 /-
 C35 — git object export is consistent and round-trips.
 
@@ -155,6 +156,138 @@ theorem run_history_keys_witness :
     keysFunctional (histLeaves h) = false ∧
       (runHist exH HState.empty h).roots ≠ h.map (fun r => expRoot exH r.tree) := by
   decide
+
+/-! ### the objects a conversion yields (file-id based model of `_tree_to_objects`) -/
+
+/-- **every yielded tree object is the right one.**  For every tree, base,
+other parents and every SHA map that is correct for the leaves of the tree and
+of the other parents: the object yielded for a dirty directory `p` is filed
+under `p` and is exactly the tree object the from-scratch export builds for the
+directory at `p` (whatever the SHA map held and whichever entries
+`iter_changes` reported). -/
+theorem yielded_tree_correct (H : GObj → Sha) (cache : Cache) (es0 : List Ent) (others : List FTree) (t : FTree)
+    (ls : List (Key × Bytes)) (hc : cacheOK H cache ls = true)
+    (hl : ∀ x ∈ leavesC (eraseC t.cs), x ∈ ls)
+    (ho : ∀ x ∈ others.flatMap (fun o => leavesC (eraseC o.cs)), x ∈ ls)
+    (p q : Path) (s : Sha) (h : dirtyTree H cache es0 others t p = some (q, s)) :
+    q = p ∧ ∃ e f cs, entAtPath t.ents p = some e ∧ e.node = .dir f cs ∧
+      s = H (.tree (sortEntries (expChildren H (eraseC cs)))) := by
+  unfold dirtyTree at h
+  split at h
+  · rename_i fid path pa nm f cs hent
+    have hm := (entAtPath_mem hent).1
+    have hsub := ftree_dir_leaves t _ hm f cs rfl
+    have heq := yExpC_eq H cache es0 others ls hc ho cs f (fun x hx => hl x (hsub x hx))
+    rw [heq] at h
+    dsimp only at h
+    split at h
+    · simp only [Option.some.injEq, Prod.mk.injEq] at h
+      exact ⟨h.1.symm, _, f, cs, hent, rfl, h.2.symm⟩
+    · split at h
+      · simp at h
+      · simp only [Option.some.injEq, Prod.mk.injEq] at h
+        exact ⟨h.1.symm, _, f, cs, hent, rfl, h.2.symm⟩
+  · simp at h
+
+/-- **the yielded root is the from-scratch root.**  Whenever the conversion
+against any base and any other parents yields a root tree at all, its id is the
+id of the from-scratch export of the tree — the file-id based model of what is
+*sent* agrees with the path based model of what is *recorded* (`incrRoot`,
+`expRoot`). -/
+theorem yielded_root_eq_scratch (fb : Variant) (H : GObj → Sha) (cache : Cache) (base : Option FTree)
+    (others : List FTree) (t : FTree)
+    (hc : cacheOK H cache (leavesC (eraseC t.cs) ++ others.flatMap (fun o => leavesC (eraseC o.cs))) = true)
+    (s : Sha) (h : yieldedRoot fb H cache base others t = some s) : s = expRoot H (eraseC t.cs) := by
+  unfold yieldedRoot at h
+  simp only [Option.map_eq_some_iff] at h
+  obtain ⟨x, hfind, rfl⟩ := h
+  have hmem := List.mem_of_find?_eq_some hfind
+  have hemp : x.1 = [] := by
+    have := List.find?_some hfind
+    simpa using this
+  unfold yielded at hmem
+  simp only [List.mem_append, List.mem_filterMap] at hmem
+  rcases hmem with ⟨c, hcm, hx⟩ | ⟨p, _, hx⟩
+  · exact absurd hemp (changeBlob_path_ne fb H cache base others t c hcm x hx)
+  · obtain ⟨q, s⟩ := x
+    simp only at hemp
+    subst hemp
+    obtain ⟨hp, e, f, cs, hent, hnode, hs⟩ := yielded_tree_correct H cache _ others t _ hc
+      (fun x hx => by simp [hx]) (fun x hx => by simp only [List.mem_append]; exact Or.inr hx) p [] s hx
+    subst hp
+    rw [entAtPath_root] at hent
+    simp only [Option.some.injEq] at hent
+    subst hent
+    simp only [FNode.dir.injEq] at hnode
+    obtain ⟨_, rfl⟩ := hnode
+    simpa [expRoot, rootObj] using hs
+
+/-- non-vacuity: a directory is renamed and one of its children removed in the
+same revision (the history of finding R2): the renamed directory is dirty at
+its old path `d` (gone) *and* at its new path `z`, and the root is yielded with
+the from-scratch id -/
+def exFBase : FTree :=
+  ⟨[0], .cons [100] (.dir [10] (.cons [102] (.file ⟨[1], [9]⟩ [104] false)
+      (.cons [103] (.file ⟨[2], [9]⟩ [105] false) .nil))) .nil⟩
+
+def exFTree : FTree :=
+  ⟨[0], .cons [122] (.dir [10] (.cons [103] (.file ⟨[2], [9]⟩ [105] false) .nil)) .nil⟩
+
+example : dirtyDirs ⟨false, false⟩ (some exFBase) exFTree = [[], [[100]], [[122]]] ∧
+    (yielded ⟨false, false⟩ exH [] (some exFBase) [] exFTree).map (·.1) = [[], [[122]]] ∧
+    yieldedRoot ⟨false, false⟩ exH [] (some exFBase) [] exFTree = some (expRoot exH (eraseC exFTree.cs)) := by decide
+
+/-- **the yielded set is not complete in the code as found** (finding
+symlink-renamed-from-banned-name): a symlink called `.git` — never exported —
+is renamed to `l` without a change of its target; the conversion yields the
+two trees but not the symlink's blob, which no parent's export contains
+either.  With the repair (`fixBanned`) the blob is yielded. -/
+theorem yield_incomplete_witness :
+    let base : FTree := ⟨[0], .cons [103] (.dir [10] (.cons [0x2e, 0x67, 0x69, 0x74] (.link ⟨[1], [9]⟩ [120])
+      (.cons [122] (.file ⟨[2], [9]⟩ [105] false) .nil))) .nil⟩
+    let t : FTree := ⟨[0], .cons [103] (.dir [10] (.cons [108] (.link ⟨[1], [9]⟩ [120])
+      (.cons [122] (.file ⟨[2], [9]⟩ [105] false) .nil))) .nil⟩
+    (exH (.blob [120]), GObj.blob [120]) ∈ objsRoot exH (eraseC t.cs) ∧
+      (exH (.blob [120]), GObj.blob [120]) ∉ objsRoot exH (eraseC base.cs) ∧
+      exH (.blob [120]) ∉ (yielded ⟨false, false⟩ exH [] (some base) [] t).map (·.2) ∧
+      exH (.blob [120]) ∈ (yielded ⟨true, false⟩ exH [] (some base) [] t).map (·.2) := by decide
+
+/-- **incremental ≠ scratch in the code as found** (finding
+entry-renamed-to-banned-name): the only change of a revision is that the file
+`g` is renamed to `e/.git`.  The change is skipped as a whole, nothing is
+yielded, and the revision records its parent's root tree — in which `g` still
+exists — although the from-scratch export differs.  With the repair the root is
+rebuilt and is the from-scratch one. -/
+theorem recorded_root_banned_rename_witness :
+    let base : FTree := ⟨[0], .cons [101] (.dir [10] (.cons [122] (.file ⟨[2], [9]⟩ [105] false) .nil))
+      (.cons [103] (.file ⟨[1], [9]⟩ [120] false) .nil)⟩
+    let t : FTree := ⟨[0], .cons [101] (.dir [10] (.cons [0x2e, 0x67, 0x69, 0x74] (.file ⟨[1], [9]⟩ [120] false)
+      (.cons [122] (.file ⟨[2], [9]⟩ [105] false) .nil))) .nil⟩
+    let b := expRoot exH (eraseC base.cs)
+    yielded ⟨false, false⟩ exH [] (some base) [] t = [] ∧
+      recordedRoot ⟨false, false⟩ exH [] (some (base, b)) [] t = b ∧
+      b ≠ expRoot exH (eraseC t.cs) ∧
+      recordedRoot ⟨false, true⟩ exH [] (some (base, b)) [] t = expRoot exH (eraseC t.cs) := by decide
+
+/-
+Full statement that is NOT proved (kept as the goal; the check evaluates it on
+every generated revision through the driver's `yield` op, and the push oracle
+checks its consequence on the real repository):
+
+  theorem yield_complete (H) (cache) (base : Option FTree) (others : List FTree) (t : FTree)
+      (hfid : file ids are unique in `t` and in `base`, sibling names are unique and sorted)
+      (hban : no entry of `base` or `t` is called `.git`  -- or the repaired variants, see yield_incomplete_witness, recorded_root_banned_rename_witness)
+      (hc : cacheOK H cache …) (hy : (yieldedRoot fb H cache base others t).isSome) :
+      ∀ o ∈ objsRoot H (eraseC t.cs),
+        o.1 ∈ (yielded fb H cache base others t).map (·.2) ∨
+        (∃ b, base = some b ∧ o ∈ objsRoot H (eraseC b.cs)) ∨
+        ∃ p ∈ others, o ∈ objsRoot H (eraseC p.cs)
+
+What is missing is the file-id/path bookkeeping: that a directory which is not
+dirty has, by file id, the same children in the base (no child entered, left,
+was renamed or changed), hence the same tree object.  `yielded_tree_correct`
+and `yielded_root_eq_scratch` are the parts about the objects that ARE yielded.
+-/
 
 /-! ### export / import round trip -/
 
